@@ -824,6 +824,7 @@ func c18Tables(v *bytes.Buffer, out string, kmd *pkgFiles) {
 	writeTable(v, "template_executions", "(function, receiver, template package html|text|unknown, destination response|buffer|other) of every Execute/ExecuteTemplate call in cmd/keymasterd (c18_harvest.go)", 4, execs)
 	writeTable(v, "text_template_sites", "(function, holder, class, constructor) of every construction/extension of a text/template value in cmd/keymasterd; class: buffer-only | response | unresolved", 4, c18TextTemplateSites(kmd, ti, execs))
 	writeTable(v, "content_type_writers", "(function, declared Content-Type, class of the hand-written response writes of the same function: none | literal | non-literal)", 3, c18ContentTypeWriters(kmd))
+	c18ContextTables(v, kmd)
 	h := c18HarvestRoutes(kmd)
 	if b, err := json.MarshalIndent(h, "", " "); err == nil {
 		os.WriteFile(filepath.Join(out, "c18_harvest.json"), b, 0644)
